@@ -32,12 +32,14 @@ namespace {
       bool pre_noise = false;
       bool reverse = false;
       std::vector<int> noise_at;     // construction steps before which noise is injected
+      std::vector<int> print_at;     // construction steps before which the unit built so far is printed (and the text discarded)
       std::string text() const
       {
          std::string s = alloc == 0 ? "plain" : alloc == 1 ? "ascending-arena" : alloc == 2 ? "descending-arena" : "alternating-arena";
          if (pre_noise) s += "+1000-unrelated-nodes-first";
          if (reverse) s += "+subterms-built-in-reverse";
          for (int k : noise_at) s += "+noise-before-step-" + std::to_string(k);
+         for (int k : print_at) s += "+unit-printed-before-step-" + std::to_string(k);
          return s;
       }
    };
@@ -155,9 +157,20 @@ namespace {
          (void) lex.get_symbol(lex.get_identifier(u8"retry"), lex.int_type());
          pads.push_back(std::make_unique<char[]>(std::size_t(24 + (k % 5) * 16)));
       }
+      int early_prints = 0;
       void step()
       {
          if (std::find(env.noise_at.begin(), env.noise_at.end(), steps) != env.noise_at.end()) noise(steps);
+         if (std::find(env.print_at.begin(), env.print_at.end(), steps) != env.print_at.end()) {
+            // looking at a program under construction must not change what is printed once it is complete
+            ++early_prints;
+            for (int loc = 0; loc < 2; ++loc) {
+               std::ostringstream scratch;
+               ipr::Printer pp{ lex, scratch };
+               pp.print_locations = loc != 0;
+               try { pp << unit; } catch (const std::logic_error&) { }
+            }
+         }
          ++steps;
       }
       template<class T> T* reg(T* n) { made.push_back(static_cast<const ipr::Node*>(n)); return n; }
@@ -559,8 +572,9 @@ namespace {
    void fail(const std::string& key, long long rank, const Prog& p, const Env& env, const std::string& what)
    {
       std::vector<long long> noise(env.noise_at.begin(), env.noise_at.end());
+      std::vector<long long> prints(env.print_at.begin(), env.print_at.end());
       rep.violation(key, rank, what + " [program: " + prog_text(p) + "; history: " + env.text() + "]",
-                    vf::JObj{}.str("pass", "C17").raw("ops", vf::jarr(prog_ops(p))).num("alloc", env.alloc).num("pre_noise", env.pre_noise).num("reverse", env.reverse).raw("noise_at", vf::jarr(noise)).done());
+                    vf::JObj{}.str("pass", "C17").raw("ops", vf::jarr(prog_ops(p))).num("alloc", env.alloc).num("pre_noise", env.pre_noise).num("reverse", env.reverse).raw("noise_at", vf::jarr(noise)).raw("print_at", vf::jarr(prints)).done());
       if (verbose) std::printf("  VIOLATION %s: %s [%s]\n", key.c_str(), what.c_str(), env.text().c_str());
    }
 
@@ -610,13 +624,15 @@ namespace {
       { Env e; e.reverse = true; envs.push_back(e); }
       { Env e; e.reverse = true; e.alloc = 2; e.pre_noise = true; envs.push_back(e); }
       for (int k = 0; k < base.steps; ++k) { Env e; e.noise_at = { k }; envs.push_back(e); }
+      for (int k = 1; k < base.steps; ++k) { Env e; e.print_at = { k }; envs.push_back(e); }
+      { Env e; for (int k = 1; k < base.steps; ++k) e.print_at.push_back(k); envs.push_back(e); }
       if (pairs_of_noise) for (int k = 0; k < base.steps; ++k) for (int l = k + 1; l < base.steps; ++l) { Env e; e.noise_at = { k, l }; e.alloc = 1 + (k + l) % 3; envs.push_back(e); }
       for (auto& e : envs) {
          Result r = run(p, e);
          rep.count("transitions");
          rep.count("traces");
-         long long rank = 10 + (long long) e.noise_at.size() * 10 + e.alloc + e.pre_noise + e.reverse;
-         const char* kind = e.reverse ? "reverse-order" : e.pre_noise ? "pre-noise" : not e.noise_at.empty() ? "interleaved-noise" : "address-order";
+         long long rank = 10 + (long long) (e.noise_at.size() + e.print_at.size()) * 10 + e.alloc + e.pre_noise + e.reverse;
+         const char* kind = e.reverse ? "reverse-order" : e.pre_noise ? "pre-noise" : not e.noise_at.empty() ? "interleaved-noise" : not e.print_at.empty() ? "printed-while-under-construction" : "address-order";
          if (r.outcome != base.outcome) { fail(std::string("C17:outcome-depends-on-history:") + kind + ":" + fam, rank, p, e, "printing ends with " + r.outcome + " under this history and with " + base.outcome + " under the plain one"); continue; }
          if (r.off != base.off) fail(std::string("C17:text-depends-on-history:") + kind + ":" + fam, rank, p, e, "the printed text differs from the plain history " + first_difference(base.off, r.off));
          if (r.on != base.on) fail(std::string("C17:located-text-depends-on-history:") + kind + ":" + fam, rank, p, e, "the text printed with locations differs from the plain history " + first_difference(base.on, r.on));
